@@ -124,6 +124,8 @@ def val_eq(a, b):
         raise Unsupported(f'equality of mismatched values {a!r} vs {b!r}')
     if hasattr(a, 'eq_model'):
         return a.eq_model(b)
+    if hasattr(b, 'eq_model'):
+        return b.eq_model(a)
     r = (a == b)
     if isinstance(r, bool):
         return r
